@@ -54,7 +54,8 @@ fn try_run_builtin(
         if item.2.starts_with('&') {
             continue;
         }
-        match tools::create_raw_fd_from_file(&item.2, true) {
+        // (`>` creates or truncates its target even if nothing is written)
+        match tools::create_raw_fd_from_file(&item.2, item.1 == ">>") {
             Ok(fd) => {
                 unsafe { libc::close(fd); }
             }
